@@ -21,7 +21,7 @@ def corpus(seed, tier):
         if p not in named:
             named.append(p)
     lims = [10, 100, 1000] if tier == 'quick' else [10, 100, 1000, 10000]
-    stride = 5 if tier == 'quick' else 1
+    stride = 2 if tier == 'quick' else 1
     for i, p in enumerate(named[::stride]):
         for lim in lims:
             out.append((f'n{i}_{lim}', p, lim))
@@ -31,13 +31,13 @@ def corpus(seed, tier):
         for l in lines:
             cid, _, p, lim = l.split('|')
             out.append((tag + cid, p, int(lim)))
-    nm = 300 if tier == 'quick' else 17000
+    nm = 1200 if tier == 'quick' else 17000
     strip(pdiff.cases_mutant(seed + 20260930, nm), 'm')
     dist['mutants_of_rule_applying_machines'] = nm
-    nt = 150 if tier == 'quick' else 6000
+    nt = 400 if tier == 'quick' else 6000
     strip(pdiff.cases_tree(seed + 20260930, nt), 't')
     dist['tree_like'] = nt
-    nr = 300 if tier == 'quick' else 20000
+    nr = 800 if tier == 'quick' else 20000
     strip(pdiff.cases_random(seed + 20260930, nr), 'r')
     dist['random'] = nr
     if tier == 'quick':                    # keep model time bounded: drop limit-3000 random/tree cases
